@@ -90,7 +90,7 @@ def sample_view(trace: dict) -> dict:
         "groups": trace["groups"],
         "params": [(p["shape"], p["dtype"]) for p in trace["params"]],
         "events": [
-            (["step", [None if g is None else g[1] for g in e["g"]]] if e["op"] == "step" else [e["op"], e["group"], e["key"], e["value"]])
+            (["step", [None if g is None else g[1] for g in e["g"]]] if e["op"] == "step" else [e["op"]] + [e[k] for k in ("group", "key", "value", "param", "scale") if k in e])
             for e in trace["events"][:12]
         ],
         "n_events": len(trace["events"]),
